@@ -33,12 +33,14 @@ def main():
     ap.add_argument("--props", default=None)
     ap.add_argument("--tier", default="quick")
     ap.add_argument("--keep", action="store_true")
+    ap.add_argument("--inplace", action="store_true", help="apply the patch to /repo itself (git apply / git checkout), as the final confirmation does")
     a = ap.parse_args()
     patch = os.path.join(a.seed_dir, "patch.diff")
     demo = os.path.join(a.seed_dir, "demo.py")
     meta = {"property": a.prop, "name": a.name, "ran": []}
-    st = sh("git -C /repo status --short")
-    assert st.stdout.strip() == "", "/repo has uncommitted changes: " + st.stdout
+    if a.inplace:
+        st = sh("git -C /repo status --short")
+        assert st.stdout.strip() == "", "/repo has uncommitted changes: " + st.stdout
 
     wt = tempfile.mkdtemp(prefix="seedwt-")
     os.rmdir(wt)
@@ -75,21 +77,32 @@ def main():
 
     if meta["confirmed"]:
         props = (a.props or a.prop).split(",")
-        try:
+        if a.inplace:
+            target = "/repo"
             r = sh("git -C /repo apply %s" % os.path.abspath(patch))
             assert r.returncode == 0, r.stderr
+        else:
+            target = tempfile.mkdtemp(prefix="seedwt2-")
+            os.rmdir(target)
+            assert sh("git -C /repo worktree add -q --detach %s HEAD" % target).returncode == 0
+            r = sh("git -C %s apply %s" % (target, os.path.abspath(patch)))
+            assert r.returncode == 0, r.stderr
+        try:
             for p in props:
                 t0 = time.time()
-                c = sh("sh %s/tools/check.sh %s %s --no-cover --no-evidence" % (VERIF, p, a.tier))
+                c = sh("VERIF_REPO=%s sh %s/tools/check.sh %s %s --no-cover --no-evidence" % (target, VERIF, p, a.tier))
                 lines = [l for l in c.stdout.splitlines() if l.startswith("VIOLATION") or "counterexample" in l or l.startswith("HARNESS-ERROR") or " -> exit " in l]
-                meta["ran"].append({"cmd": "sh tools/check.sh %s %s --no-cover --no-evidence" % (p, a.tier), "exit": c.returncode,
-                                    "wall_s": round(time.time() - t0, 1), "output": lines[:8]})
-                print(p, "exit", c.returncode, lines[:3])
+                meta["ran"].append({"cmd": "git apply patch.diff (%s); sh tools/check.sh %s %s --no-cover --no-evidence" % ("in /repo" if a.inplace else "scratch worktree via VERIF_REPO", p, a.tier),
+                                    "exit": c.returncode, "wall_s": round(time.time() - t0, 1), "output": [l[:400] for l in lines[:6]]})
+                print(p, "exit", c.returncode, [l[:200] for l in lines[:2]])
         finally:
-            sh("git -C /repo checkout -- .")
-            sh("git -C /repo clean -fdq python proto")
-        assert sh("git -C /repo status --short").stdout.strip() == ""
-        meta["detected_by"] = [x["cmd"].split()[2] for x in meta["ran"] if x["exit"] == 1]
+            if a.inplace:
+                sh("git -C /repo checkout -- .")
+                assert sh("git -C /repo status --short").stdout.strip() == ""
+            else:
+                sh("git -C /repo worktree remove --force %s" % target)
+                shutil.rmtree(target, ignore_errors=True)
+        meta["detected_by"] = [x["cmd"].split("check.sh ")[1].split()[0] for x in meta["ran"] if x["exit"] == 1]
     out = os.path.join(VERIF, "seeded", a.name)
     os.makedirs(out, exist_ok=True)
     for f in ("patch.diff", "demo.py", "notes.md"):
